@@ -32,7 +32,7 @@ PROPS = {
             "LogFile::create's file name and write_jsonl's time member use the same fields with their own format strings: write_jsonl's is under contract in unit jsonl (C17); LogFile::create's only in the bounded stand-in c16",
         ],
         "not_covered": [
-            "LogFile::create's format string (bounded stand-in c16 checks the file name made now)",
+            "LogFile::create outside its naming statement (the loop over attempt numbers, create_new)",
             "SystemTime::now / duration_since (clock source)",
         ],
     },
